@@ -191,6 +191,7 @@ theorem normalize_idempotent_partial (v v' : Json) (h : RT.numFree v = true) (hn
 /-- **canonical text is a fixed point of the transformer**: `Transform(Transform(x)) = Transform(x)`
     for every number-free object or array -/
 theorem transform_fixed_point_partial (v : Json) (text : List Char) (h : RT.numFree v = true)
+    (hd : ∀ v', v.normalize = some v' → v'.depth ≤ maxNesting)
     (ht : transformValue v = some text) : transform text = some text := by
   unfold transformValue at ht
   split at ht
@@ -214,9 +215,16 @@ theorem transform_fixed_point_partial (v : Json) (text : List Char) (h : RT.numF
             · cases hn; rfl
             · cases hn
         | _ => simp [Json.isContainer] at hc
-      simp only [Option.bind_some, transformValue, hc', if_true, Json.jcs, hfix, Option.map_some]
+      simp only [Option.bind_some, hd v' hn, if_true, transformValue, hc', Json.jcs, hfix, Option.map_some]
       simpa [Json.jcs, hn] using ht
   · cases ht
+
+/-- text nested deeper than the bound is refused, whatever it contains (C19: the recursion of
+    the transformer is bounded) -/
+theorem transform_refuses_deep (text : List Char) (j : Json) (hp : Parse.parse text = some j)
+    (hd : j.depth > maxNesting) : transform text = none := by
+  have : ¬ j.depth ≤ maxNesting := by omega
+  simp [transform, hp, this]
 
 /-- the hypothesis is met by ordinary values (escapes and nesting included) -/
 example : RT.numFree (.obj [("b", .arr [.str "x\n\u0001\"", .null]), ("a", .bool true)]) = true := by decide
